@@ -9,7 +9,7 @@ tvars == <<ssVars, l, nbad>>
 Ev == Trace[l]
 
 Step(e) ==
-    CASE e.op = "reset" -> SReset(e.zeros)
+    CASE e.op = "reset" -> SReset(e.zeros, e.types)
       [] e.op = "new"   -> SNew
       [] e.op = "alias" -> SAlias(e.of)
       [] e.op = "write" -> SWrite(e.var, e.f + 1, e.val)
@@ -18,6 +18,7 @@ Legal(e) ==
     CASE e.op = "read"    -> e.got = SReadVal(e.var, e.f + 1)
       [] e.op = "method"  -> IF e.f >= 0 THEN e.got = SReadVal(e.var, e.f + 1) ELSE e.got = e.val
       [] e.op = "readnil" -> e.got = "true"
+      [] e.op = "type"    -> ftypes[e.f + 1] = "" \/ e.got = ftypes[e.f + 1]
       [] e.op = "new"     -> e.var = Len(vars) + 1 /\ e.nfields = Len(zeros)
       [] e.op = "alias"   -> e.var = Len(vars) + 1
       [] OTHER            -> TRUE
